@@ -278,3 +278,90 @@ def rule_common_flag(chk, P, rid, floor=5):
                         '%s: the choice between %s and %s at %s does not read the routine\'s all-lanes-equal flag (%s): a lane longer than the '
                         'shortest one gets a shortened keystream round' % (f.name, a['e']['fn'] + '(' + ', '.join(guards.lv(x) for x in a['e'].get('a', [])) + ')',
                                                                          c['e']['fn'] + '(...)', t.get('loc'), ', '.join(sorted(flags))))
+
+
+# ------------------------------------------------------------------------------------------------------------------------------
+# X3: constant arguments of per-architecture wrapper families
+
+def _arch_groups(P):
+    from . import c13
+    groups = {}
+    seen = set()
+    for tu in P.tus():
+        for f in P.funcs(tu):
+            if (f.name, f.loc) in seen:
+                continue
+            seen.add((f.name, f.loc))
+            st = c13.ARCH_SUFFIX.sub('', f.name)
+            if st != f.name:
+                groups.setdefault(st, []).append(f)
+    return {k: v for k, v in groups.items() if len({x.loc.split(':')[0] for x in v}) >= 2}
+
+
+def rule_wrapper_constants(chk, P, rid, floor=100):
+    """the per-architecture wrapper files (sha_sse.c / sha_avx2.c / sha_avx512.c, sha_mb_*.c, the chacha20-poly1305 entry points, ...) hold
+    one thin function per (algorithm, architecture) that passes constants to a shared worker.  Arranged as a matrix file x algorithm, a constant
+    argument is either a property of the architecture (equal down a file: the arch selector) or of the algorithm (equal along a row: block size,
+    pad size, digest selector).  A cell that fits neither is a constant copied from the wrong sibling."""
+    r = chk.rule(rid, 'in a family of per-architecture wrapper functions every constant argument handed to the shared worker is either the '
+                      'architecture\'s (equal for all algorithms of that file) or the algorithm\'s (equal for all architectures): no cell deviates from both', floor=floor)
+    groups = _arch_groups(P)
+    fams = {}
+    for st, members in groups.items():
+        files = tuple(sorted({m.loc.split(':')[0] for m in members}))
+        fams.setdefault(files, {})[st] = members
+    for files, stems in sorted(fams.items()):
+        if len(stems) < 3 or len(files) < 2:
+            continue
+        # cells[(callee stem, arg index)][stem][file] = constant
+        cells = {}
+        where = {}
+        for st, members in stems.items():
+            for f in members:
+                fl = f.loc.split(':')[0]
+                per = {}
+                for b, i, ev in f.events(('call',)):
+                    fn = ev['e'].get('fn')
+                    if not fn:
+                        continue
+                    cs = re.sub(r'\d+', 'N', stem(fn))
+                    per.setdefault(cs, []).append(ev)
+                for cs, evs in per.items():
+                    if len(evs) != 1:
+                        continue
+                    for ai, a in enumerate(evs[0]['e'].get('a', [])):
+                        v = cf.evalc(a)
+                        if v is not None:
+                            cells.setdefault((cs, ai), {}).setdefault(st, {})[fl] = int(v)
+                            where[(cs, ai, st, fl)] = (f, evs[0])
+        for (cs, ai), mat in sorted(cells.items()):
+            rows = {st: row for st, row in mat.items() if len(row) >= 2}
+            if len(rows) < 3:
+                continue
+            row_const = sum(1 for row in rows.values() if len(set(row.values())) == 1)
+            cols = {}
+            for st, row in rows.items():
+                for fl, v in row.items():
+                    cols.setdefault(fl, {})[st] = v
+            col_const = sum(1 for c in cols.values() if len(c) >= 2 and len(set(c.values())) == 1)
+            ncols = sum(1 for c in cols.values() if len(c) >= 2)
+            per_stem = row_const >= max(2, 0.6 * len(rows))
+            per_file = ncols >= 2 and col_const >= max(2, 0.6 * ncols)
+            if per_stem == per_file:
+                continue        # both (one constant everywhere) or neither (lane counts): nothing to say
+            for st, row in sorted(rows.items()):
+                for fl, v in sorted(row.items()):
+                    f, ev = where[(cs, ai, st, fl)]
+                    key = '%s:%s#%d' % (f.name, cs, ai)
+                    if per_stem:
+                        vals = list(row.values())
+                        maj = max(set(vals), key=vals.count)
+                        ok = v == maj or vals.count(maj) < 2
+                        kind = 'the algorithm\'s (its architecture siblings pass %s)' % maj
+                    else:
+                        vals = list(cols[fl].values())
+                        maj = max(set(vals), key=vals.count)
+                        ok = v == maj or vals.count(maj) < 2
+                        kind = 'the architecture\'s (the other functions of %s pass %s)' % (fl.split('/')[-1], maj)
+                    r.check(ok, key, ev['loc'], '%s passes %d as argument %d of %s; in this wrapper family that argument is %s' % (
+                        f.name, v, ai, ev['e'].get('fn'), kind))
